@@ -45,11 +45,26 @@ def main() -> int:
         print(f"VIOLATION property={a.pid} replay={path} no-failing-input-found", flush=True)
         os._exit(1)
 
-    import threading
+    # a watchdog PROCESS, not a timer thread (the checks of the calibrator family count the threads alive after a calibration)
+    # and not SIGALRM (C16 uses the alarm for its own per-call time-outs): the child signals SIGUSR2 after the limit and goes
+    # away as soon as this process has ended
+    signal.signal(signal.SIGUSR2, lambda *_: _stuck())
+    me = os.getpid()
+    if os.fork() == 0:
+        import time
 
-    t = threading.Timer(limit, _stuck)
-    t.daemon = True
-    t.start()
+        for fd in (0, 1, 2):   # do not keep the caller's pipes open
+            with __import__("contextlib").suppress(OSError):
+                os.close(fd)
+
+        t_end = time.time() + limit
+        while time.time() < t_end:
+            time.sleep(2.0)
+            if os.getppid() != me:
+                os._exit(0)
+        with __import__("contextlib").suppress(OSError):
+            os.kill(me, signal.SIGUSR2)
+        os._exit(0)
     try:
         return mod.run(chk, replay=a.replay)
     except Exception:  # noqa: BLE001
